@@ -5,6 +5,8 @@ import Mahotas.Proofs.C05Nd
 import Mahotas.Proofs.C05Strided
 import Mahotas.Proofs.C05Abscissa
 import Mahotas.Proofs.C05Bounds
+import Mahotas.Proofs.C05Rounded
+import Mahotas.Proofs.C05Binary64
 open Mahotas Mahotas.C05 Mahotas.C04
 
 /-- **C05-T1 (the 1-D pass is the exact lower envelope).** For every integer line `f` of every
@@ -300,3 +302,183 @@ example : (distanceModel [2, 2, 3] #[1, 1, 1, 1, 1, 1, 1, 1, 1, 1, 0, 1]).1
     = #[3, 2, 3, 2, 1, 2, 2, 1, 2, 1, 0, 1] := by decide +kernel
 example : Rounding id ∧ AbscissaExact id (fun _ => 0) 5 :=
   ⟨⟨fun _ _ h => h, fun x => by simp; positivity, fun _ _ => rfl⟩, ⟨fun _ _ _ _ _ _ _ _ => Iff.rfl, fun _ _ _ _ _ _ => Iff.rfl⟩⟩
+
+/-! ## Round 3 — the whole-image model with rounded abscissae -/
+
+/-- **C05 (what the rounded whole-image model is).** `distanceRounded rnd` (proof-side definition,
+`Proofs/C05Rounded.lean`) starts from the same images as `distanceCoord` (`initCoord`: 0 on the background,
+the Python sentinel elsewhere; origins = own flat index) and folds `passCoordR rnd` over the axes in the
+same order. `passCoordR rnd` is `passCoord` with the 1-D kernel with ROUNDED abscissae on every line: the
+value it writes at a pixel `p` is the entry of `dt1dR rnd` — `(q − v)² + f v` for the owner `v` that
+`owners1dR rnd` (first loop `buildR`/`popToR`/`pushR` with every abscissa `rnd (s)`, stored and compared
+rounded; read-out walk against the integers) reports at `q = p_ax` — for the line through `p`, and the
+origin it writes is the previous origin at that owner. With the identity for `rnd` the kernel is the exact
+one. -/
+theorem C05_rounded_is_line_kernel (rnd : ℚ → ℚ) :
+    (∀ shape bw, distanceRounded rnd shape bw =
+        (List.range shape.length).foldl (passCoordR rnd) (initCoord shape bw)) ∧
+    (∀ (fo : Img Int × Img Int) (ax : Nat) (p : List Int), inside fo.1.shape p = true →
+      ax < fo.1.shape.length →
+      (passCoordR rnd fo ax).1.getD p 0 = (dt1dR rnd (lineOf fo.1 p ax)).getD (p.getD ax 0).toNat 0 ∧
+      (passCoordR rnd fo ax).2.getD p 0 =
+        fo.2.getD (p.set ax ((ownerAtR rnd (lineOf fo.1 p ax) (p.getD ax 0).toNat : Nat) : Int)) 0) ∧
+    (∀ f : Array Int, owners1dR id f = owners1d f) :=
+  ⟨fun _ _ => rfl, fun fo ax p hp hax => passCoordR_is_dt1dR rnd fo ax p hp hax, owners1dR_id⟩
+
+/-- **C05 (one pass with the rounded kernel).** For ANY pair of images and any axis: if the kernel with
+rounded abscissae selects the owners of the exact kernel on the line through every pixel, the rounded pass
+returns exactly the pair of images (values and tracked origins) of the exact pass `passCoord`. -/
+theorem C05_rounded_pass_exact (rnd : ℚ → ℚ) (fo : Img Int × Img Int) (ax : Nat)
+    (h : ∀ p : List Int, owners1dR rnd (lineOf fo.1 p ax) = owners1d (lineOf fo.1 p ax)) :
+    passCoordR rnd fo ax = passCoord fo ax :=
+  passCoordR_eq_of_owners rnd fo ax h
+
+/-- **C05 (doubles compute the same image as rationals: the whole function).** For every rounding function
+with the properties of one IEEE-754 binary64 round-to-nearest division in the normal range (`Rounding`:
+monotone, relative error at most `2⁻⁵³`, exact on integers up to `2⁵³`), every rank and shape whose sides
+are at most `2¹²` and whose Python sentinel is at most `2²⁶` (the side condition of
+`C05_rounded_passes_same_owners`: every 1-D, 2-D and 3-D array with sides `≤ 2¹²`, every 4-D array with
+sides `< 2¹²`) and every input `bw`: the whole-image model in which EVERY intersection abscissa of EVERY
+kernel call of EVERY pass is rounded returns exactly the same pair of images — values AND tracked origins
+— as the exact-rational model `distanceCoord` that T2/T3 are about and that the driver runs. (Induction
+over the passes: the images before pass `k` are equal by induction, so the lines are those of the exact
+passes, whose values lie in `[0, sentinel]`, so by the separation lemma every comparison on rounded
+abscissae has the exact outcome and the same owners are selected line by line.) -/
+theorem C05_rounded_image_exact (rnd : ℚ → ℚ) (hr : Rounding rnd) (shape : List Nat) (bw : Array Int)
+    (hside : ∀ d ∈ shape, d ≤ 2 ^ 12) (hsent : sentinel shape ≤ 2 ^ 26) :
+    distanceRounded rnd shape bw = distanceCoord shape bw :=
+  distanceRounded_eq_small rnd hr shape bw hside hsent
+
+/-- **C05 (the same, under the general numeric bound).** Same conclusion for every shape whose sides are at
+most `N + 1` (indices `0 … N`) with `4·N²·(sentinel + N²) < 2⁵³`: e.g. every 1-D line of up to 5793 samples,
+every 2-D array with sides up to 5234 — slightly beyond the round figures `2¹²`/`2²⁶`. -/
+theorem C05_rounded_image_exact_of_bound (rnd : ℚ → ℚ) (hr : Rounding rnd) (shape : List Nat)
+    (bw : Array Int) (N : ℕ) (hside : ∀ d ∈ shape, d ≤ N + 1)
+    (hB : 4 * (N : ℚ) ^ 2 * ((sentinel shape : ℚ) + (N : ℚ) ^ 2) < 2 ^ 53) :
+    distanceRounded rnd shape bw = distanceCoord shape bw :=
+  distanceRounded_eq_of_bound rnd hr shape bw N hside hB
+
+/-- **C05-T2 for the rounded whole-image model (`C05_distance_exact` / `C05_model_exact` transferred).**
+Under the side condition of `C05_rounded_image_exact`, with some background pixel: the value that the model
+with rounded abscissae returns at every pixel `p` is a lower bound of the squared distance from `p` to every
+background pixel and equals the squared distance to one of them; and for an input of matching size the flat
+arrays of the model of the code (`distanceModel`: `py_dt` on strided views) are the data of the rounded
+model's images (values and origins). -/
+theorem C05_rounded_model_exact (rnd : ℚ → ℚ) (hr : Rounding rnd) (shape : List Nat) (bw : Array Int)
+    (hside : ∀ d ∈ shape, d ≤ 2 ^ 12) (hsent : sentinel shape ≤ 2 ^ 26) :
+    (∀ p, inside shape p = true →
+      (∃ q0, inside shape q0 = true ∧ bw.getD (ravelI shape q0) 0 = 0) →
+      (∀ q, inside shape q = true → bw.getD (ravelI shape q) 0 = 0 →
+          (distanceRounded rnd shape bw).1.getD p 0 ≤ sqDist p q) ∧
+      (∃ q, inside shape q = true ∧ bw.getD (ravelI shape q) 0 = 0 ∧
+          (distanceRounded rnd shape bw).1.getD p 0 = sqDist p q)) ∧
+    (bw.size = shapeSize shape →
+      (distanceModel shape bw).1 = (distanceRounded rnd shape bw).1.data ∧
+      (distanceModel shape bw).2 = (distanceRounded rnd shape bw).2.data) := by
+  rw [C05_rounded_image_exact rnd hr shape bw hside hsent]
+  exact ⟨fun p hp hbg => C05_distance_exact shape bw p hp hbg, fun hsz => C05_model_eq_coord shape bw hsz⟩
+
+/-- **C05-T3 for the rounded whole-image model (`C05_gvoronoi_nearest` transferred).** Under the side
+condition of `C05_rounded_image_exact`: the origin tracked through the passes with rounded abscissae is, at
+every pixel, a labelled pixel at minimum squared Euclidean distance; labelled pixels keep their label. -/
+theorem C05_rounded_gvoronoi_nearest (rnd : ℚ → ℚ) (hr : Rounding rnd) (shape : List Nat) (lab : Array Int)
+    (hside : ∀ d ∈ shape, d ≤ 2 ^ 12) (hsent : sentinel shape ≤ 2 ^ 26)
+    (hsz : lab.size = shapeSize shape) (p : List Int) (hp : inside shape p = true)
+    (hlab : ∃ q0, inside shape q0 = true ∧ lab.getD (ravelI shape q0) 0 ≠ 0) :
+    let bw := lab.map fun l => if l == 0 then (1 : Int) else 0
+    let o := unravelI shape ((distanceRounded rnd shape bw).2.getD p 0).toNat
+    inside shape o = true ∧
+    lab.getD ((distanceRounded rnd shape bw).2.getD p 0).toNat 0 = lab.getD (ravelI shape o) 0 ∧
+    lab.getD (ravelI shape o) 0 ≠ 0 ∧
+    (∀ q, inside shape q = true → lab.getD (ravelI shape q) 0 ≠ 0 → sqDist p o ≤ sqDist p q) ∧
+    (lab.getD (ravelI shape p) 0 ≠ 0 → o = p) := by
+  simp only [C05_rounded_image_exact rnd hr shape _ hside hsent]
+  exact C05_gvoronoi_nearest shape lab hsz p hp hlab
+
+/-- non-vacuity: the identity on `ℚ` is a `Rounding`; the rounded whole-image model evaluates on a 2×2×3
+image (values and origins) and on a 3×4 image, and agrees with `distanceCoord` there -/
+example : Rounding id ∧ (∀ d ∈ [2, 2, 3], d ≤ 2 ^ 12) ∧ sentinel [2, 2, 3] ≤ 2 ^ 26 :=
+  ⟨⟨fun _ _ h => h, fun x => by simp; positivity, fun _ _ => rfl⟩, by decide, by decide⟩
+example : (distanceRounded id [2, 2, 3] #[1, 1, 1, 1, 1, 1, 1, 1, 1, 1, 0, 1]).1.data
+    = #[3, 2, 3, 2, 1, 2, 2, 1, 2, 1, 0, 1] ∧
+    (distanceRounded id [2, 2, 3] #[1, 1, 1, 1, 1, 1, 1, 1, 1, 1, 0, 1]).2.data
+    = #[10, 10, 10, 10, 10, 10, 10, 10, 10, 10, 10, 10] := by decide +kernel
+example : (distanceRounded id [3, 4] #[1, 0, 1, 1, 1, 1, 1, 1, 1, 1, 0, 1]).1.data
+    = (distanceCoord [3, 4] #[1, 0, 1, 1, 1, 1, 1, 1, 1, 1, 0, 1]).1.data ∧
+    (distanceRounded id [3, 4] #[1, 0, 1, 1, 1, 1, 1, 1, 1, 1, 0, 1]).2.data
+    = #[1, 1, 1, 1, 1, 1, 10, 10, 10, 10, 10, 10] := by decide +kernel
+example : dt1dR id #[5, 9, 0, 9, 9, 1] = [4, 1, 0, 1, 2, 1] := by decide +kernel
+
+/-! ## Round 3 — a concrete rounding: binary64 round-to-nearest -/
+
+/-- **C05 (binary64 round-to-nearest satisfies the `Rounding` interface).** `rndBin n x` rounds a rational
+`x` to a multiple of `2^(⌊log₂|x|⌋ − 52)` (the spacing of the binary64 numbers in the binade of `|x|`), the
+integer quotient being chosen by a nearest-integer function `n`; `roundEven` is nearest with ties to even
+and `rne53 = rndBin roundEven` is IEEE-754 binary64 `roundTiesToEven` with an unbounded exponent range (what
+the hardware division returns whenever the exact quotient has magnitude in the normal range
+`[2^-1022, 2^1024)`; bit patterns, infinities and subnormals are not modelled). Proved: (1) `rne53` is a
+`Rounding` — monotone, relative error at most `2⁻⁵³`, exact on integers up to `2⁵³`; (2) so is `rndBin n`
+for EVERY nearest-integer function `n` (any tie rule); (3) `roundEven` is a nearest-integer function and
+resolves ties to the even integer; (4) for `x ≠ 0` the result is `m·2^(e−52)` with an integer significand
+`2⁵² ≤ |m| ≤ 2⁵³` at most half a unit from `x/2^(e−52)`: a nearest binary64 value. -/
+theorem C05_binary64_is_rounding :
+    Rounding rne53 ∧
+    (∀ n : ℚ → ℤ, (∀ y, |(n y : ℚ) - y| ≤ 1 / 2) → Rounding (rndBin n)) ∧
+    ((∀ y : ℚ, |(roundEven y : ℚ) - y| ≤ 1 / 2) ∧
+      ∀ y : ℚ, y - (⌊y⌋ : ℚ) = 1 / 2 → roundEven y % 2 = 0) ∧
+    (∀ x : ℚ, x ≠ 0 → ∃ m : ℤ, rne53 x = (m : ℚ) * (2 : ℚ) ^ (Int.log 2 |x| - 52) ∧
+      2 ^ 52 ≤ |m| ∧ |m| ≤ 2 ^ 53 ∧ |(m : ℚ) - x / (2 : ℚ) ^ (Int.log 2 |x| - 52)| ≤ 1 / 2) :=
+  ⟨rne53_rounding, rndBin_rounding, ⟨roundEven_near, roundEven_tie_even⟩,
+   fun x hx => rndBin_significand roundEven roundEven_near x hx⟩
+
+/-- **C05 (every abscissa of `distance()` is 0 or far inside the normal range of binary64).** For sides
+`≤ 2¹²` and sentinel `≤ 2²⁶`: on the line of every pass `k` through every pixel, the intersection abscissa
+of any two roots `u < v` of the line — the kernel only ever computes abscissae of this form — is `0` or has
+magnitude between `2⁻¹³` and `2²⁷`. So the division that produces it neither overflows nor underflows, which
+is the range in which `rne53` is the hardware rounding. -/
+theorem C05_abscissa_normal_range (shape : List Nat) (bw : Array Int)
+    (hside : ∀ d ∈ shape, d ≤ 2 ^ 12) (hsent : sentinel shape ≤ 2 ^ 26)
+    (k : Nat) (hk : k < shape.length) (p : List Int) (u v : ℕ) (huv : u < v)
+    (hv : v < shape.getD k 0) :
+    sInt (gOf (lineOf ((List.range k).foldl passCoord (initCoord shape bw)).1 p k)) u v = 0 ∨
+    (1 / 2 ^ 13 ≤ |sInt (gOf (lineOf ((List.range k).foldl passCoord (initCoord shape bw)).1 p k)) u v| ∧
+     |sInt (gOf (lineOf ((List.range k).foldl passCoord (initCoord shape bw)).1 p k)) u v| ≤ 2 ^ 27) :=
+  lines_abscissa_normal shape bw hside hsent k hk p u v huv hv
+
+/-- **C05 (`distance()` with binary64 abscissae = `distance()` with exact rational abscissae).** The
+instance of `C05_rounded_image_exact` at the concrete rounding `rne53`: for every rank and shape with sides
+`≤ 2¹²` and sentinel `≤ 2²⁶` and every input, the whole-image model in which every intersection abscissa is
+rounded to binary64 (round to nearest, ties to even) returns exactly the images — values and tracked
+origins — of `distanceCoord`; hence (with `C05_model_eq_coord`) the flat arrays of `distanceModel`, and with
+some background pixel every value is the exact minimum squared distance to the background. No hypothesis
+about the rounding remains. -/
+theorem C05_binary64_image_exact (shape : List Nat) (bw : Array Int)
+    (hside : ∀ d ∈ shape, d ≤ 2 ^ 12) (hsent : sentinel shape ≤ 2 ^ 26) :
+    distanceRounded rne53 shape bw = distanceCoord shape bw ∧
+    (bw.size = shapeSize shape →
+      (distanceModel shape bw).1 = (distanceRounded rne53 shape bw).1.data ∧
+      (distanceModel shape bw).2 = (distanceRounded rne53 shape bw).2.data) ∧
+    (∀ p, inside shape p = true →
+      (∃ q0, inside shape q0 = true ∧ bw.getD (ravelI shape q0) 0 = 0) →
+      (∀ q, inside shape q = true → bw.getD (ravelI shape q) 0 = 0 →
+          (distanceRounded rne53 shape bw).1.getD p 0 ≤ sqDist p q) ∧
+      (∃ q, inside shape q = true ∧ bw.getD (ravelI shape q) 0 = 0 ∧
+          (distanceRounded rne53 shape bw).1.getD p 0 = sqDist p q)) :=
+  ⟨distanceRounded_rne53_eq shape bw hside hsent,
+   (C05_rounded_model_exact rne53 rne53_rounding shape bw hside hsent).2,
+   (C05_rounded_model_exact rne53 rne53_rounding shape bw hside hsent).1⟩
+
+/-- non-vacuity: `rne53` really rounds (`1/3 ↦ 6004799503160661·2⁻⁵⁴`, the binary64 number `0x3FD5555555555555`),
+and the whole-image model with `rne53` abscissae on a 2×2×3 image -/
+example : rne53 (1 / 3) = 6004799503160661 / 18014398509481984 ∧ rne53 (1 / 3) ≠ 1 / 3 := by
+  rw [rne53_one_third]; norm_num
+example : (distanceRounded rne53 [2, 2, 3] #[1, 1, 1, 1, 1, 1, 1, 1, 1, 1, 0, 1]).1.data
+    = #[3, 2, 3, 2, 1, 2, 2, 1, 2, 1, 0, 1] := by
+  rw [(C05_binary64_image_exact [2, 2, 3] _ (by decide) (by decide)).1]
+  decide +kernel
+/-- non-vacuity of the general bound: a line of 5793 samples and a 5234×5234 image are covered -/
+example : 4 * ((5792 : ℕ) : ℚ) ^ 2 * ((sentinel [5793] : ℚ) + ((5792 : ℕ) : ℚ) ^ 2) < 2 ^ 53 ∧
+    4 * ((5233 : ℕ) : ℚ) ^ 2 * ((sentinel [5234, 5234] : ℚ) + ((5233 : ℕ) : ℚ) ^ 2) < 2 ^ 53 := by
+  have h1 : sentinel [5793] = 33558850 := by decide
+  have h2 : sentinel [5234, 5234] = 54789513 := by decide
+  rw [h1, h2]; norm_num
